@@ -87,16 +87,49 @@ func runC10(c *Ctx) {
 		// the accept step may live in a method tail-called with the decoded size: the guard rules apply there
 		var sizeV ssa.Value
 		var fl []fill
-		if acc, f, _, okAcc := c.acceptStep(rum); okAcc {
+		origRum := rum
+		var outerSize ssa.Value
+		if acc, f, outer, okAcc := c.acceptStep(rum); okAcc {
 			if acc != rum {
 				R.Analysed(fname(acc))
 				rum = acc
 			}
 			fl = []fill{f}
 			sizeV = f.size
+			outerSize = outer
 		}
 		l := core.NewLin(c.P, rum, mods, sum)
 		mts := maxTerms(l)
+		// the guard may be a step of its own (readBodySize() (int, error)): ReadUntypedMsg hands its successful result to
+		// the accept step. The accept bounds are then what the guard step proves about that result, and the rejecting
+		// edges are examined in the guard step.
+		if rum != origRum && len(mts) == 0 && outerSize != nil {
+			if ex, isEx := core.StripConv(outerSize).(*ssa.Extract); isEx && ex.Index == 0 {
+				if gcall, isCall := ex.Tuple.(*ssa.Call); isCall {
+					g := core.StaticCallee(gcall)
+					if g != nil && c.P.InPkg(g, "buffer") && g.Blocks != nil && len(callsIn(g, calleeIs(nmse))) > 0 {
+						R.Analysed(fname(g))
+						for _, site := range callsIn(origRum, calleeIs(rum)) {
+							gr, _ := c.resultGuarantee("C10.R1", site, outerSize)
+							R.Check(gr.nonNeg && gr.leMax, "C10.R1", "ReadUntypedMsg:accept-path:"+callDescr(site), c.at(site), "a body is buffered only if 0 <= size <= limit", "the size handed to the accept step is the successful result of "+fkey(g)+", which proves 0 <= result <= MaxMessageSize on every return that may carry a nil error", sprintf("the guard step %s does not prove 0 <= result (%v) and result <= MaxMessageSize (%v) on its successful returns", fkey(g), gr.nonNeg, gr.leMax))
+						}
+						rum = g
+						l = core.NewLin(c.P, rum, mods, sum)
+						mts = maxTerms(l)
+						sizeV = nil
+						for _, ci := range callsIn(g, calleeIs(nmse)) {
+							sizeV = ci.Common().Args[1]
+						}
+						// the size the guard step hands back on success is the size it tested
+						for _, r := range returns(g) {
+							if len(r.Results) == 2 && !c.Err().Classify(r.Results[1], r.Block()).NeverNil() && r.Results[0] != sizeV {
+								R.Fail("C10.R1", "ReadUntypedMsg:guard-step-result", c.at(r), "the size that is buffered is the size that was compared with the limit", "a successful return of "+fkey(g)+" hands back a value other than the size it tested")
+							}
+						}
+					}
+				}
+			}
+		}
 		if sizeV == nil || len(mts) == 0 {
 			R.Fail("C10.R1", "ReadUntypedMsg:shape", c.atFn(rum), "ReadUntypedMsg compares the declared size with the limit", "size or limit not found")
 		} else {
@@ -800,6 +833,13 @@ func (c *Ctx) c10EverySessionRead() {
 		}
 		return false
 	}
+	// the frame reader may skip the rejected body itself; then its callers must not skip it a second time
+	selfSkip := map[string]bool{}
+	for _, name := range []string{"ReadTypedMsg", "ReadUntypedMsg"} {
+		if fr := c.P.Method("buffer", "Reader", name); fr != nil {
+			selfSkip[name] = reachesSlurp(fr, 3)
+		}
+	}
 	n := 0
 	for fn := range session {
 		if c.P.InPkg(fn, "buffer") {
@@ -811,6 +851,7 @@ func (c *Ctx) c10EverySessionRead() {
 				continue
 			}
 			n++
+			inside := selfSkip[readerMethod(call)]
 			skips := false
 			errv := errResultOf(call)
 			fes := failEdges(errv)
@@ -838,7 +879,11 @@ func (c *Ctx) c10EverySessionRead() {
 					}
 				}
 			}
-			R.Check(skips, "C10.R6", fkey(fn)+":oversized-skipped:"+callDescr(call), c.at(call), "wherever the session reads a message frame, a message above the limit is skipped in full before its error is reported (the next message is then processed normally)", "a Reader.Slurp call is reachable on the failure edge of the frame read", "the frame read in "+fname(fn)+" passes the size-exceeded error on without skipping the unread body: the body bytes are parsed as the following messages")
+			if inside && skips {
+				R.Fail("C10.R6", fkey(fn)+":oversized-skipped:"+callDescr(call), c.at(call), "wherever the session reads a message frame, a message above the limit is skipped in full, once, before its error is reported", "the frame reader skips the rejected body itself and "+fname(fn)+" skips it again on the failure edge: an oversized message is consumed at twice its declared length and the messages behind it are swallowed")
+				continue
+			}
+			R.Check(skips || inside, "C10.R6", fkey(fn)+":oversized-skipped:"+callDescr(call), c.at(call), "wherever the session reads a message frame, a message above the limit is skipped in full, once, before its error is reported (the next message is then processed normally)", sprintf("Reader.Slurp on the failure edge of the frame read: %v; inside the frame reader: %v", skips, inside), "the frame read in "+fname(fn)+" passes the size-exceeded error on without skipping the unread body: the body bytes are parsed as the following messages")
 		}
 	}
 	R.Floor("C10.R6", "session-phase frame reads outside pkg/buffer", n, 2)
